@@ -615,6 +615,38 @@ func c15Request(l *core.Ledger, r *rt) {
 			}
 		}
 	}
+	// the Metadata the requests of a call share is read by every node's sender until that sender
+	// has written or given up its request - which can be after the call has returned (a stream
+	// failure or Close answers for the node while the write is pending). Nobody writes it after
+	// construction: not its fields through an object that was not allocated on the spot (a pool),
+	// not through Reset. WrapMessage (server side, C05-M5) writes Status into the metadata it is
+	// handed - the request's own, which no other goroutine of the server reads (C15-S1).
+	for _, f := range allFuncs(l.Prog, r.pkg) {
+		f := f
+		if decodeOnly[f] || f.Name() == "WrapMessage" {
+			continue
+		}
+		sx.AllInstrs(f, func(_ sx.Node, in ssa.Instruction) {
+			switch x := in.(type) {
+			case *ssa.Store:
+				fa, ok := x.Addr.(*ssa.FieldAddr)
+				if !ok || !isNamed(fa.X.Type(), orderingPkg, "Metadata") || freshBase(fa.X, 0) {
+					return
+				}
+				if fl := fieldOf(fa.X.Type(), fa.Field); fl != nil && fl.Exported() {
+					bad = append(bad, fmt.Sprintf("Metadata.%s in %s", fl.Name(), fnKey(f)))
+				}
+			case *ssa.Call:
+				cs := x.Call.StaticCallee()
+				if cs == nil || cs.Signature.Recv() == nil || !isNamed(cs.Signature.Recv().Type(), orderingPkg, "Metadata") {
+					return
+				}
+				if cs.Name() == "Reset" && len(x.Call.Args) > 0 && !freshBase(x.Call.Args[0], 0) {
+					bad = append(bad, fmt.Sprintf("Metadata.Reset in %s", fnKey(f)))
+				}
+			}
+		})
+	}
 	sort.Strings(bad)
 	l.Check(len(bad) == 0, "C15-R1", "who-may-write/request,Message", token.NoPos, "requests and messages are immutable after construction", fmt.Sprintf("a shared request/message is written after construction: %v", bad))
 }
